@@ -44,6 +44,8 @@ FRAME_OPS = {
     'WU': ('WU', 1), 'WU0': ('WU', 0), 'PING': ('PING', False), 'RST': ('RST', 1),
     'PRIORITY': ('PRIORITY', 3), 'GOAWAY': ('GOAWAY',), 'SETTINGS': ('SETTINGS', False),
     'UNKNOWN': ('UNKNOWN', 1), 'ALTSVC': ('ALTSVC', 0, True),
+    # frames that are connection errors where they stand
+    'CONT': ('CONT', 1), 'DATA9': ('DATA', 9, False),
 }
 
 
@@ -143,7 +145,8 @@ def real_bytes(f, exc):
 
 
 ALL_KINDS = ['DATA', 'DATA_END', 'DATAP', 'HEADERS', 'TRAILERS', 'WU', 'WU0', 'PING', 'RST',
-             'PRIORITY', 'GOAWAY', 'SETTINGS', 'UNKNOWN', 'ALTSVC', 'ACK', 'BIGDATA']
+             'PRIORITY', 'GOAWAY', 'SETTINGS', 'UNKNOWN', 'ALTSVC', 'ACK', 'BIGDATA', 'CONT',
+             'DATA9']
 
 
 def make(kinds, with_parse_errors):
@@ -291,9 +294,13 @@ def shards(tier, seed):
     triples = [('H_NOEND', 'CONT_END', 'DATA'), ('ACK', 'BIGDATA', 'PING'), ('DATA', 'WU', 'DATA_END'), ('HEADERS', 'DATA',
                                                                          'TRAILERS'),
                ('PING', 'SETTINGS', 'RST')]
+    # an automatic response (ACK, RST_STREAM) followed by a connection error in the same chunk
+    errs = [('PING', 'CONT'), ('SETTINGS', 'DATA9'), ('RST', 'DATA', 'CONT')]
     if tier == 'quick':
         pairs = pairs[:7]
         triples = triples[:2]
+        errs = errs[:2]
+    triples = triples + errs
     for ks in pairs + triples:
         out.append(Shard('inbound/%s' % '+'.join(ks), make(ks, False), budget=200))
     for ks in (pairs[:4] if tier == 'quick' else pairs):
